@@ -595,8 +595,8 @@ def install_bci(sess, keep=False):
             sess.skip("M-bci", "array alpha with bc/bca (only claimed for quantile)")
             return
         cols = theta.reshape(theta.shape[0], -1).astype(float)
-        if np.any(np.all(np.isnan(cols), axis=0)) or np.any(np.isinf(cols)):
-            sess.skip("M-bci", "all-NaN component or infinite replicate")
+        if np.any(np.isinf(cols)):
+            sess.skip("M-bci", "infinite replicate")
             return
         if method != "quantile":
             th = np.asarray(a["theta_hat"], dtype=float)
